@@ -113,3 +113,36 @@ Section Diag.
     - reflexivity.
   Qed.
 End Diag.
+
+(* ---- the scalar step in closed form: one refined step multiplies the element by the truncated exponential of dt * coef ---- *)
+Section ScalarStep.
+  Context {R : StarRing}.
+  Add Ring Rrss07 : (rth R).
+  Open Scope sr_scope.
+
+  (* q [p1; ..; pL] c = p1 c + p1 p2 c^2 + .. + p1..pL c^L ;  with p_l = dt / l this is sum_{l=1..L} (dt c)^l / l! *)
+  Fixpoint tq (prefs : list R) (c : R) : R :=
+    match prefs with
+    | [] => 0
+    | p :: ps => p * c * (1 + tq ps c)
+    end.
+  Definition tfactor (prefs : list R) (c : R) : R := 1 + tq prefs c.
+
+  Lemma scalar_tloop prefs c r1 r2 :
+    snd (tloop (radd R) (rmul R) (fun x => c * x) prefs r1 r2) = r2 + r1 * tq prefs c.
+  Proof.
+    revert r1 r2; induction prefs as [|p ps IH]; intros r1 r2; cbn [tloop snd tq]; [ring|].
+    rewrite IH. ring.
+  Qed.
+
+  Theorem scalar_tstep prefs c x : tstep (radd R) (rmul R) (fun x => c * x) prefs x = x * tfactor prefs c.
+  Proof. unfold tstep, tfactor. rewrite scalar_tloop. ring. Qed.
+
+  Lemma tfactor_order2 p1 p2 c : tfactor [p1; p2] c = 1 + p1 * c + p1 * p2 * (c * c).
+  Proof. unfold tfactor. cbn [tq]. ring. Qed.
+
+  (* one refined step of the scalar propagation of Section Diag: multiply by the truncated exponential, then by the dephasing factor *)
+  Theorem scalar_gstep (cf d : nat -> R) prefs j x :
+    gstep (radd R) (rmul R) (fun j x => cf j * x) (fun j x => x * d j) prefs j x = x * tfactor prefs (cf j) * d j.
+  Proof. unfold gstep. now rewrite scalar_tstep. Qed.
+End ScalarStep.
